@@ -178,9 +178,34 @@ def both(res, work, tier):
     return ownership_view(res, work, tier)
 
 
+def D(name, hosts, prefixes, t):
+    return {"op": "deploy", "name": name, "hosts": hosts, "prefixes": prefixes, "tls": False, "tls_redirect": False, "strip": True,
+            "cert": "none", "pages": "none", "topts": 0, "targets": [{"name": t, "healthy": True}]}
+
+
+def directed():
+    """owner-changing shapes: a redeploy that changes only its prefixes (or only its hosts) releases the old pairs and claims
+    the new ones; removing one of two services that share a host releases only ITS pairs; the next claim of each pair is
+    accepted / refused accordingly"""
+    h, g = b"a.example.com", b"b.example.com"
+    out = []
+    for p1, p2 in ((b"/one", b"/two"), (b"/api", b"/"), (b"/", b"/api")):
+        out.append([D(b"web", [h], [p1], b"ta:80"), D(b"web", [h], [p2], b"tb:80"), D(b"api", [h], [p2], b"tc:80"),
+                    D(b"api", [h], [p1], b"td:80"), D(b"web", [h], [p1], b"te:80"), D(b"web", [h], [p2, b"/x"], b"tf:80")])
+    out.append([D(b"web", [h], [b"/one"], b"ta:80"), D(b"web", [g], [b"/one"], b"tb:80"), D(b"api", [g], [b"/one"], b"tc:80"),
+                D(b"api", [h], [b"/one"], b"td:80"), D(b"web", [h, g], [b"/one"], b"te:80")])
+    for first, second in ((b"/first", b"/second"), (b"/", b"/second")):
+        out.append([D(b"web", [h], [first], b"ta:80"), D(b"api", [h], [second], b"tb:80"), {"op": "remove", "name": b"web"},
+                    D(b"docs", [h], [second], b"tc:80"), D(b"docs", [h], [first], b"td:80"), {"op": "remove", "name": b"api"},
+                    D(b"web", [h], [second], b"te:80")])
+    out.append([D(b"web", [h, g], [b"/"], b"ta:80"), D(b"api", [g], [b"/api"], b"tb:80"), {"op": "remove", "name": b"web"},
+                D(b"docs", [g], [b"/api"], b"tc:80"), D(b"docs", [h], [b"/"], b"td:80"), D(b"docs", [g], [b"/"], b"te:80")])
+    return out
+
+
 def run(tier, seed):
     return run_property(
         "C05", tier, seed, ["C05.v", "C05conc.v", "M4link.v"], ["props/C05.vo", "props/C05conc.vo", "props/M4link.vo"],
         profile={"deploy": 14, "deploy_fail": 2, "remove": 5, "restart": 2, "rollout_deploy": 1, "rollout_set": 0,
                  "rollout_stop": 0, "pause": 1, "stop": 1, "resume": 1},
-        monitor="c05_ok h", n_quick=40, n_thorough=600, extra=both)
+        monitor="c05_ok h", n_quick=40, n_thorough=600, extra=both, fixed=directed())
